@@ -57,13 +57,19 @@ def validate(ctx: Ctx, pm: ProgramModel, rule: str, key: str, model: AObj, what:
     return None
 
 
-def ctx_model(mb: ModelBuilder, d: D, host_optional: bool) -> AObj:
-    """Root -> Host (mandatory/optional); Host's children: one relation of cardinality d."""
+def ctx_model(mb: ModelBuilder, d: D, host_optional: bool, decorated: bool = False) -> AObj:
+    """Root -> Host (mandatory/optional); Host's children: one relation of cardinality d.
+    decorated: every feature carries an attribute (which must not change which configurations exist)."""
     root = mb.feature("Root")
     host = mb.feature("Host")
     mb.relation(root, [host], 0 if host_optional else 1, 1)
-    mb.relation(root, [mb.feature("Side")], 0, 1)
-    mb.relation(host, [mb.feature(f"n{j}") for j in range(d.n)], d.min, d.max)
+    side = mb.feature("Side")
+    mb.relation(root, [side], 0, 1)
+    kids = [mb.feature(f"n{j}") for j in range(d.n)]
+    mb.relation(host, kids, d.min, d.max)
+    if decorated:
+        for i, f in enumerate([host, side] + kids):
+            f._f["attributes"].append(mb.attribute("cost", i + 1, f))
     return mb.model(root, [])
 
 
@@ -91,6 +97,10 @@ def check(pm: ProgramModel, ctx: Ctx) -> None:
                      ctx_model(mb, d, host_optional), f"children {d} ({k}) of a "
                      f"{'optional' if host_optional else 'mandatory'} feature")
             nk += 1
+            if d in (D(1, 1, 1), D(0, 1, 1), D(1, 1, 2), D(1, 2, 2), D(0, 1, 2), D(2, 2, 3), D(1, 2, 3)):
+                validate(ctx, pm, "C11-GROUPS", f"kind+attributes:{k}:{d}:{'optional' if host_optional else 'mandatory'}-host",
+                         ctx_model(mb, d, host_optional, decorated=True), f"children {d} ({k}) of a "
+                         f"{'optional' if host_optional else 'mandatory'} feature, every feature carrying an attribute")
     for g in (D(1, 1, 2), D(1, 2, 2), D(0, 1, 2), D(2, 2, 3)):
         root = mb.feature("Root")
         mb.relation(root, [mb.feature(f"g{j}") for j in range(g.n)], g.min, g.max)
